@@ -89,6 +89,8 @@ Fixpoint exp_depth (e : exp) : nat :=
   | Xor a b | Implies a b | Iff a b | BinOp _ a b => S (Nat.max (exp_depth a) (exp_depth b))
   end.
 
+Definition as_num (e : exp) : option xq := match e with Num x => Some x | _ => None end.
+
 (* option-monad map *)
 Fixpoint mapM {A B} (f : A -> option B) (l : list A) : option (list B) :=
   match l with
